@@ -494,11 +494,27 @@ def check_x_case(ctx, tags, spec, dev_spec, compiler, K):
     # (1) layout conformance + ranges (independent comparison)
     N = n // 2
     gp = dev_spec["gate_parameters"] if dev_spec is not None else None
-    bad = conform(ccmds, x_layout_cmds(N), gp, n) if n % 2 == 0 else [("length", "odd number of modes accepted")]
-    for k, msg in bad[:3]:
-        sig = "%s:layout:%s" % (lc, k)
+    default = ((dev_spec["compiler"] or ["Xunitary"])[0]) if dev_spec is not None else None
+    if n % 2 != 0:
+        bad = [("length", "odd number of modes accepted")] if (dev_spec is not None or compiler != "Xstrict") else []
+    elif dev_spec is None:
+        # no hardware target given: Xunitary / Xcov still promise the X-series topology; Xstrict promises nothing
+        bad = [] if compiler == "Xstrict" else [b for b in conform(ccmds, x_layout_cmds(N), None, n) if b[0] != "fixed"]
+    else:
+        bad = conform(ccmds, x_layout_cmds(N), gp, n)
+    seen = set()
+    for k, msg in bad:
         if k == "dagger":
             sig = "x:dagger-survives-compile"
+        elif compiler == "Xstrict" and gp is None and default != "Xstrict":
+            sig = "xstrict:layout-unchecked"
+        elif k == "fixed" and default != compiler:
+            sig = "x:fixed-parameter-unchecked"
+        else:
+            sig = "%s:layout:%s" % (lc, k)
+        if sig in seen:
+            continue
+        seen.add(sig)
         ctx.counterexample(sig, "%s returned a circuit that does not conform to the device: %s" % (compiler, msg),
                            dict(data, observed=ccmds))
     # (2) same experiment
@@ -508,24 +524,61 @@ def check_x_case(ctx, tags, spec, dev_spec, compiler, K):
     except Exception as e:
         ctx.counterexample("%s:simulate:%s" % (lc, type(e).__name__), "cannot simulate source/compiled: %s" % e, data)
         return "ok"
-    exact = np.allclose(s_src[0], s_cmp[0], atol=1e-7, rtol=0) and np.allclose(s_src[1], s_cmp[1], atol=1e-7, rtol=0)
+    exact = states_equal(s_src, s_cmp)
     if not exact:
         same, dev_ = same_photon_stats(s_src, s_cmp, K)
         if not same or compiler in ("Xstrict", "Xunitary"):
-            ndup, _ = n_dup_pairs(spec)
-            cls = "state-changed"
-            if compiler == "Xunitary" and ndup >= 2:
-                cls = "s2-merge:squeezer-lost"
-            elif compiler == "Xunitary" and ndup >= 1 and has_dagger(spec, {"S2gate"}):
-                cls = "s2-merge:dagger-ignored"
-            elif has_dagger(spec, {"Rgate", "BSgate", "MZgate"}):
-                cls = "interferometer-dagger-ignored"
+            cls = classify_state_change(spec, compiler, ccmds, s_cmp, K)
             what = ("%s compiled a program into one with different photon statistics (max Fock-probability difference %.3g)"
                     % (compiler, dev_)) if not same else \
                    ("%s changed the Gaussian state (max covariance difference %.3g) although it compiles at the unitary level"
                     % (compiler, float(np.abs(s_src[1] - s_cmp[1]).max())))
             ctx.counterexample("%s:%s" % (lc, cls), what, dict(data, observed=ccmds))
     return "ok"
+
+
+def states_equal(a, b, tol=1e-7):
+    return bool(np.allclose(a[0], b[0], atol=tol, rtol=0) and np.allclose(a[1], b[1], atol=tol, rtol=0))
+
+
+def classify_state_change(spec, compiler, ccmds, s_cmp, K):
+    """name the specific cause when it is one of the recorded ones (and only then)"""
+    N = spec["n"] // 2
+    if compiler == "Xunitary":
+        want = {}
+        for c in spec["cmds"]:
+            if c[0] == "S2gate":
+                want[tuple(c[2])] = want.get(tuple(c[2]), 0.0) + c[1][0]
+        got = {}
+        for c in ccmds:
+            if c[0] == "S2gate":
+                got.setdefault(tuple(c[2]), []).append(c[1][0])
+        ndup, _ = n_dup_pairs(spec)
+        lost = any(len(got.get((i, i + N), [])) != 1 or abs(got[(i, i + N)][0] - want.get((i, i + N), 0.0)) > 1e-9 for i in range(N))
+        if lost and ndup >= 2:
+            return "s2-merge:squeezer-lost"
+    if has_dagger(spec):
+        # is the compiled state exactly what the source would give with the daggers of the affected gates dropped?
+        cnt = {}
+        for c in spec["cmds"]:
+            if c[0] == "S2gate":
+                cnt[tuple(c[2])] = cnt.get(tuple(c[2]), 0) + 1
+        stripped = copy.deepcopy(spec)
+        s2_merge = False
+        for c in stripped["cmds"]:
+            if c[3] and c[0] == "S2gate" and compiler == "Xunitary":
+                if cnt[tuple(c[2])] >= 2:
+                    c[3] = False
+                    s2_merge = True
+            elif c[3]:
+                c[3] = False
+        try:
+            s_str = gaussian_state(spec["n"], build_program(stripped).circuit)
+            if states_equal(s_str, s_cmp) or same_photon_stats(s_str, s_cmp, K)[0]:
+                return "s2-merge:dagger-ignored" if s2_merge and not any(c[3] for c in spec["cmds"] if c[0] != "S2gate") else "dagger-ignored"
+        except Exception:
+            pass
+    return "state-changed"
 
 
 # =====================================================================================================
@@ -743,6 +796,7 @@ def check_borealis_case(ctx, case, K):
     # which phases were moved by an odd multiple of pi relative to the exact compensation?
     src_args = case["args"]
     shifted = {0: 0, 1: 0, 2: 0}
+    odd = {0: [], 1: [], 2: []}
     compensated = False
     corr_prev = [0.0] * len(src_args[0])
     for loop in range(3):
@@ -760,6 +814,7 @@ def check_borealis_case(ctx, case, K):
                                    "to %r modulo pi" % (loop, j, b, want), data)
             elif int(round(k)) % 2 != 0:
                 shifted[loop] += 1
+                odd[loop].append(j)
         corr_prev = corr
     # same experiment
     try:
@@ -770,15 +825,27 @@ def check_borealis_case(ctx, case, K):
         return "ok", compensated
     if not same:
         partial = any(o is not None for o in case["offsets"]) and not all(o is not None for o in case["offsets"])
-        if shifted[1] or shifted[2] or shifted[0]:
+        # hypothesis: the only cause is the +-pi range correction -> undo the odd shifts and compare again
+        undone = copy.deepcopy(compiled)
+        for loop, js in odd.items():
+            arr = list(undone.tdm_params[1 + 2 * loop])
+            for j in js:
+                arr[j] = arr[j] + PI
+            undone.tdm_params[1 + 2 * loop] = arr
+        try:
+            pi_only = any(odd.values()) and same_photon_stats(s_src, tdm_state(undone), K)[0]
+        except Exception:
+            pi_only = False
+        if pi_only:
             sig = "borealis:pi-range-correction"
             what = ("borealis moved %d/%d/%d phase arguments of loops 0/1/2 by an odd multiple of pi to fit the modulator range; "
                     "the compiled program has different photon statistics (max Fock-probability difference %.3g)"
                     % (shifted[0], shifted[1], shifted[2], dev_))
         elif partial:
             sig = "borealis:partial-user-offsets"
-            what = ("with loop offsets given by the user for some loops only, the compensation of the others changes the photon "
-                    "statistics (max Fock-probability difference %.3g)" % dev_)
+            what = ("with loop offsets given by the user for some loops only (%r), the phases of the user-set loops are not adjusted for the "
+                    "compensation applied to the previous loop; photon statistics change (max Fock-probability difference %.3g)"
+                    % ([o is not None for o in case["offsets"]], dev_))
         else:
             sig = "borealis:stats-changed"
             what = "borealis compiled program has different photon statistics (max Fock-probability difference %.3g)" % dev_
@@ -1254,7 +1321,7 @@ def corr_s2(ctx, inputs, tag):
             m = ["CircuitErr", mv[0]]
         ndup = len(di)
         ctx.case({"model": "s2", "input": inp, "impl": res[0]}, nontrivial=ndup >= 1 or len(inp["s2"]) < inp["N"], bucket="corr:s2:%s:dup%d" % (res[0], min(ndup, 2)))
-        dmj = [[list(k), list(l)] for k, l in dm]
+        dmj = [[[a, b], list(l)] for a, b, l in dm]
         if dmj != di:
             ctx.disagreement("corr:list_duplicates", "model %r vs implementation %r" % (dmj, di), {"family": "corr", "model": "s2", "input": inp})
         same = (m[0] == res[0]) and (m[0] != "Ok" or (len(m[1]) == len(res[1]) and all(a[:2] == b[:2] and a[2] == b[2] and a[3] == b[3] for a, b in zip(m[1], res[1])))) \
@@ -1300,7 +1367,7 @@ def s2_predicate(inp, res):
 
 def qlit(x):
     f = Fraction(float(x))
-    return "(%d # %d)" % (f.numerator, f.denominator) if f.numerator >= 0 else "(-%d # %d)" % (-f.numerator, f.denominator)
+    return "(Qmake (%d)%%Z %d%%positive)" % (f.numerator, f.denominator)
 
 
 def corr_borealis(ctx, inputs, tag):
